@@ -118,7 +118,7 @@ def agrees (s : PState) (o : Obs) : Bool :=
   s.em == o.em && s.cup == o.cup && s.gup == o.gup && s.cmin == o.cmin && s.gmin == o.gmin
   && s.satc == o.satc && s.satg == o.satg && s.cpend == o.cpend && s.gpend == o.gpend
   && s.dim == o.dim && s.csS == o.csS && s.gsS == o.gsS
-  && (!o.csPend || s.pC) && (!o.gsPend || s.pG)
+  && (!o.csPend || !o.cup || s.pC) && (!o.gsPend || !o.gup || s.pG)
 
 /-- a model outcome carrying the observed flags instead of its own. -/
 def withObsFlags (s : PState) (o : Obs) : PState :=
@@ -249,6 +249,7 @@ def ghN : List Gh := Id.run do
 /-- the closure of `new_polyhedron` under the iterations of the loop of `poly_difference_assign`
 (the set of values of `diffLoop its x` over all `its`, up to the ghost counter). -/
 def diffReach (x : PState) : List PState := Id.run do
+  if x.em then return [norm (diffNew0 x)]
   let n0 := norm (diffNew0 x)
   let mut seen : List PState := [n0]
   let mut keys : List Nat := [keyOf n0]
